@@ -53,7 +53,7 @@ func (c *Ctx) Txn() *txnAnchors {
 	fn(&a.readTsFn, "", "oracle", "readTs")
 	fn(&a.newCommitTs, "", "oracle", "newCommitTs")
 	fn(&a.doneRead, "", "oracle", "doneRead")
-	fn(&a.doneCommit, "", "oracle", "doneCommit")
+	a.doneCommit = p.FnOr("", "oracle", "doneCommit") // optional: Commit may call commitMark.Done itself
 	fn(&a.hasConflict, "", "oracle", "hasConflict")
 	fn(&a.cleanUp, "", "oracle", "cleanUpCommittedTxns")
 	fn(&a.discardStale, "", "levelManager", "discardStaleEntries")
@@ -78,6 +78,30 @@ func (c *Ctx) Txn() *txnAnchors {
 	fd(&a.fMemtable, "", "DB", "memtable")
 	c.memo["txn"] = a
 	return a
+}
+
+// doneCommitSites: the call sites of f that finish a timestamp on commitMark - through the doneCommit helper or
+// by calling commitMark.Done directly; the timestamp is argument 1 in both forms.
+func (a *txnAnchors) doneCommitSites(f *ssa.Function) []ssa.CallInstruction {
+	var out []ssa.CallInstruction
+	direct := markCalls(a.p, a.fCommitMark, "Done")
+	eachInstr(f, func(ins ssa.Instruction) {
+		ci, ok := ins.(ssa.CallInstruction)
+		if !ok {
+			return
+		}
+		if direct(ins) {
+			out = append(out, ci)
+			return
+		}
+		for _, g := range a.p.Callees(ci) {
+			if a.doneCommit != nil && g == a.doneCommit {
+				out = append(out, ci)
+				return
+			}
+		}
+	})
+	return out
 }
 
 func (a *txnAnchors) ok(r *RuleRun) bool {
@@ -412,15 +436,24 @@ func runSnapCommit(c *Ctx, r *RuleRun) {
 	}
 	p := c.P
 	la := c.Locks()
-	f := a.newCommitTs
-	fn := p.FnName(f)
+	top := a.newCommitTs
 	begin := markCalls(p, a.fCommitMark, "Begin")
+	// the allocation itself may live in a helper of newCommitTs: the checks run where commitMark.Begin is called
+	f := p.directHolder(top, begin)
+	if f == nil {
+		r.Undecided(p.FnName(top), "commitMark.Begin(ts)", p.Pos(top.Pos()), "no single function on the way from newCommitTs calls commitMark.Begin")
+		return
+	}
+	fn := p.FnName(f)
 	var ts ssa.Value
 	eachInstr(f, func(ins ssa.Instruction) {
 		if !begin(ins) {
 			return
 		}
-		call := ins.(*ssa.Call)
+		call, isCall := ins.(*ssa.Call)
+		if !isCall {
+			return
+		}
 		arg := call.Call.Args[1]
 		okv := isLoadOfField(arg, a.fNextTs)
 		r.Check(okv, fn, "commitMark.Begin(ts)", p.Pos(instrPos(call)), "ts = nextTs (value before the increment)", "commitMark.Begin is not called with the allocated timestamp")
@@ -450,17 +483,40 @@ func runSnapCommit(c *Ctx, r *RuleRun) {
 		r.Check(st.Val == ts, fn, "committedTxn.ts", p.Pos(instrPos(st)), "recorded with ts", "the committed transaction is recorded with a timestamp other than the one allocated")
 	}
 	for _, st := range storesToField(f, a.fCtFp) {
-		r.Check(isLoadOfField(st.Val, a.fWritesFp), fn, "committedTxn.writesFp", p.Pos(instrPos(st)), "recorded with the transaction's write fingerprints", "the committed transaction is not recorded with txn.writesFp")
+		r.Check(p.through(st.Val, func(v ssa.Value) bool { return isLoadOfField(v, a.fWritesFp) }), fn, "committedTxn.writesFp", p.Pos(instrPos(st)), "recorded with the transaction's write fingerprints", "the committed transaction is not recorded with txn.writesFp")
 	}
 	for _, st := range storesToField(f, a.fCommitted) {
 		_, held := la.Must[st]["oracle.Mutex"]
 		r.Check(held, fn, "committedTxns store under oracle.Mutex", p.Pos(instrPos(st)), "under oracle.Mutex", "committedTxns is stored without oracle.Mutex")
 	}
 	eachInstr(f, func(ins ssa.Instruction) {
-		if ret, ok := ins.(*ssa.Return); ok && isConstBool(retOperand(ret, 1), false) {
+		if ret, ok := ins.(*ssa.Return); ok && (f != top || isConstBool(retOperand(ret, 1), false)) {
 			r.Check(retOperand(ret, 0) == ts, fn, "returns ts", p.Pos(instrPos(ret)), "returns the allocated timestamp", "newCommitTs returns a timestamp other than the one it began on commitMark and recorded")
 		}
 	})
+	if f != top {
+		// newCommitTs hands on what the allocating helper returned
+		fromHelper := func(v ssa.Value) bool {
+			if ex, ok := v.(*ssa.Extract); ok && ex.Index == 0 {
+				v = ex.Tuple
+			}
+			call, ok := v.(*ssa.Call)
+			if !ok {
+				return false
+			}
+			for _, g := range p.Callees(call) {
+				if g == f || p.Reach(g)[f] {
+					return true
+				}
+			}
+			return false
+		}
+		eachInstr(top, func(ins ssa.Instruction) {
+			if ret, ok := ins.(*ssa.Return); ok && isConstBool(retOperand(ret, 1), false) {
+				r.Check(fromHelper(retOperand(ret, 0)), p.FnName(top), "returns ts", p.Pos(instrPos(ret)), "returns what the allocating helper returned", "newCommitTs returns a timestamp other than the one it began on commitMark and recorded")
+			}
+		})
+	}
 	// Commit: entries stamped with the returned ts
 	cf := a.commit
 	cfn := p.FnName(cf)
@@ -519,26 +575,14 @@ func runSnapCommit(c *Ctx, r *RuleRun) {
 		r.Undecided(cfn, "entry stamping", p.Pos(cf.Pos()), "Commit builds no versioned entries")
 	}
 	nd := 0
-	eachInstr(cf, func(ins ssa.Instruction) {
-		dc, ok := ins.(ssa.CallInstruction)
-		if !ok {
-			return
-		}
-		is := false
-		for _, g := range p.Callees(dc) {
-			if g == a.doneCommit {
-				is = true
-			}
-		}
-		if !is {
-			return
-		}
+	for _, dc := range a.doneCommitSites(cf) {
+		ins := dc.(ssa.Instruction)
 		nd++
 		args := dc.Common().Args
 		r.Check(len(args) == 2 && args[1] == cts, cfn, "doneCommit(commitTs)", p.Pos(instrPos(ins)), "finishes the timestamp it began", "doneCommit is called with a timestamp other than the one begun")
 		if _, deferred := ins.(*ssa.Defer); deferred {
 			r.Hold(cfn, "doneCommit after the last append", p.Pos(instrPos(ins)), "deferred: runs when Commit returns, after the append")
-			return
+			continue
 		}
 		// no append after doneCommit
 		bad := false
@@ -549,7 +593,7 @@ func runSnapCommit(c *Ctx, r *RuleRun) {
 			}
 		}
 		r.Check(!bad, cfn, "doneCommit after the last append", p.Pos(instrPos(ins)), "no wal append can follow doneCommit", "writes are applied after commitMark was finished: a reader that waited for this commit can miss them")
-	})
+	}
 	if nd == 0 {
 		r.Viol(cfn, "doneCommit", p.Pos(cf.Pos()), "Commit never finishes its commit timestamp on commitMark")
 	}
@@ -802,8 +846,12 @@ func runSerSection(c *Ctx, r *RuleRun) {
 	for _, cl := range applySites(c, cf) {
 		pts = append(pts, cl)
 	}
-	for _, cl := range callsTo(p, cf, a.doneCommit) {
-		pts = append(pts, cl)
+	var dones []*ssa.Call
+	for _, cl := range a.doneCommitSites(cf) {
+		if call, ok := cl.(*ssa.Call); ok {
+			pts = append(pts, call)
+			dones = append(dones, call)
+		}
 	}
 	for _, pt := range pts {
 		_, held := la.Must[pt][lockName]
@@ -812,7 +860,6 @@ func runSerSection(c *Ctx, r *RuleRun) {
 	}
 	// not released in between
 	allocs := callsTo(p, cf, a.newCommitTs)
-	dones := callsTo(p, cf, a.doneCommit)
 	if len(allocs) == 1 && len(dones) >= 1 {
 		unlockW := func(ins ssa.Instruction) bool {
 			op := la.opAt[ins]
@@ -1000,7 +1047,7 @@ func runConfWriteFp(c *Ctx, r *RuleRun) {
 			}
 			return false
 		}
-		q := PathQuery{P: p, Fn: f, Avoid: is, Target: isSuccessReturn}
+		q := PathQuery{P: p, Fn: f, Avoid: is, Target: isSuccessReturn, SuccessOnly: true}
 		if w := q.FindPath(); w != nil {
 			r.Viol(fn, "update "+name, p.Pos(instrPos(w[len(w)-1])), "modify can return nil without updating "+name, p.describePath(w)...)
 		} else {
@@ -1035,13 +1082,19 @@ func runConfOrder(c *Ctx, r *RuleRun) {
 	}
 	var tsLoad ssa.Instruction
 	begin := markCalls(p, a.fCommitMark, "Begin")
+	// steps that live in a helper count at the call of the helper
+	steps := map[ssa.Instruction]bool{hc[0]: true, dr[0]: true, cu[0]: true}
+	mayBegin := p.liftMay(begin)
 	var begins []ssa.Instruction
 	eachInstr(f, func(ins ssa.Instruction) {
-		if begin(ins) {
-			begins = append(begins, ins)
-			if ld, ok := ins.(*ssa.Call).Call.Args[1].(*ssa.UnOp); ok {
-				tsLoad = ld
-			}
+		if steps[ins] || !mayBegin(ins) {
+			return
+		}
+		begins = append(begins, ins)
+		if !begin(ins) {
+			tsLoad = ins
+		} else if ld, ok := ins.(*ssa.Call).Call.Args[1].(*ssa.UnOp); ok {
+			tsLoad = ld
 		}
 	})
 	r.Check(dominatesInstr(hc[0], dr[0]), fn, "hasConflict before doneRead", p.Pos(instrPos(dr[0])), "ordered", "doneRead runs before the conflict check")
@@ -1053,12 +1106,13 @@ func runConfOrder(c *Ctx, r *RuleRun) {
 	// conflict return: the branch on the result of hasConflict being true must not begin/store anything
 	var effects []ssa.Instruction
 	effects = append(effects, begins...)
-	for _, st := range storesToField(f, a.fNextTs) {
-		effects = append(effects, st)
-	}
-	for _, st := range storesToField(f, a.fCommitted) {
-		effects = append(effects, st)
-	}
+	mayStore := p.liftMay(func(i ssa.Instruction) bool { return p.storesField(a.fNextTs)(i) || p.storesField(a.fCommitted)(i) })
+	eachInstr(f, func(ins ssa.Instruction) {
+		if !steps[ins] && mayStore(ins) {
+			effects = append(effects, ins)
+		}
+	})
+	mustBegin := NewMustDo(p, begin)
 	eachInstr(f, func(ins ssa.Instruction) {
 		ret, ok := ins.(*ssa.Return)
 		if !ok {
@@ -1066,14 +1120,17 @@ func runConfOrder(c *Ctx, r *RuleRun) {
 		}
 		conflictRet := isConstBool(retOperand(ret, 1), true)
 		if conflictRet {
-			q := PathQuery{P: p, Fn: f, Starts: effects, Target: func(i ssa.Instruction) bool { return i == ins }}
-			w := q.FindPath()
+			var w []ssa.Instruction
+			if len(effects) > 0 {
+				q := PathQuery{P: p, Fn: f, Starts: effects, Target: func(i ssa.Instruction) bool { return i == ins }}
+				w = q.FindPath()
+			}
 			r.Check(w == nil, fn, "refusal is effect-free", p.Pos(instrPos(ret)), "no timestamp, record or commitMark.Begin on the refusal path",
 				"a refused transaction has already advanced nextTs, recorded itself or begun on commitMark: a Begin without Done blocks every later reader")
 			guard := boolFactIs(ret, func(v ssa.Value) bool { return v == ssa.Value(hc[0]) }, true)
 			r.Check(guard, fn, "refusal iff hasConflict", p.Pos(instrPos(ret)), "returned on the hasConflict()==true branch", "the refusal is not returned on the hasConflict()==true branch")
 		} else {
-			isBegin := func(i ssa.Instruction) bool { return begin(i) }
+			isBegin := func(i ssa.Instruction) bool { return !steps[i] && mustBegin.Instr(i) }
 			q := PathQuery{P: p, Fn: f, Avoid: isBegin, Target: func(i ssa.Instruction) bool { return i == ins }}
 			r.Check(q.FindPath() == nil, fn, "acceptance begins on commitMark", p.Pos(instrPos(ret)), "every accepting return is preceded by commitMark.Begin",
 				"a timestamp can be handed out without commitMark.Begin: readers do not wait for this commit to be applied")
@@ -1144,32 +1201,102 @@ func runConfWindow(c *Ctx, r *RuleRun) {
 	f := a.hasConflict
 	fn := p.FnName(f)
 	n := 0
+	// base of a field read: the struct value or the address the field is taken from
+	fieldBase := func(v ssa.Value, want *types.Var) ssa.Value {
+		if fx, ok := v.(*ssa.Field); ok && fx.X.Type().Underlying().(*types.Struct).Field(fx.Field) == want {
+			return fx.X
+		}
+		if fv, base := loadedField(v); fv == want && fv != nil {
+			return base
+		}
+		return nil
+	}
+	sameRecord := func(a, b ssa.Value) bool {
+		if a == nil || b == nil {
+			return false
+		}
+		if a == b {
+			return true
+		}
+		// a value loaded from the address the other is
+		if u, ok := a.(*ssa.UnOp); ok && u.Op == token.MUL && u.X == b {
+			return true
+		}
+		if u, ok := b.(*ssa.UnOp); ok && u.Op == token.MUL && u.X == a {
+			return true
+		}
+		return false
+	}
+	// lookups in ct.writesFp, in hasConflict itself or in a helper it hands the committed record to
+	check := func(g *ssa.Function, site ssa.Instruction, recOf func(lkBase ssa.Value) ssa.Value) {
+		eachInstr(g, func(ins ssa.Instruction) {
+			lk, ok := ins.(*ssa.Lookup)
+			if !ok {
+				return
+			}
+			base := fieldBase(lk.X, a.fCtFp)
+			if base == nil {
+				return
+			}
+			n++
+			rec := recOf(base)
+			at := site
+			if at == nil {
+				at = lk
+			}
+			if rec == nil {
+				r.Undecided(fn, "compare only with commits after the snapshot", p.Pos(instrPos(lk)), "the committed record searched in the helper cannot be traced to an argument of the call")
+				return
+			}
+			g := hasFact(at, func(cm Cmp) bool {
+				if cm.Op != ">" || cm.Y == nil || !isLoadOfField(cm.Y, a.fReadTs) {
+					return false
+				}
+				return sameRecord(fieldBase(cm.X, a.fCtTs), rec)
+			})
+			r.Check(g, fn, "compare only with commits after the snapshot", p.Pos(instrPos(lk)), "fingerprints are compared only when ct.ts > txn.readTs",
+				"fingerprints are compared for a window other than ct.ts > txn.readTs: commits the transaction could see cause refusals, or commits it could not see are ignored")
+		})
+	}
+	check(f, nil, func(b ssa.Value) ssa.Value { return b })
 	eachInstr(f, func(ins ssa.Instruction) {
-		lk, ok := ins.(*ssa.Lookup)
+		call, ok := ins.(*ssa.Call)
 		if !ok {
 			return
 		}
-		if fv, _ := loadedField(lk.X); fv != a.fCtFp {
-			// lookups in ct.writesFp: X is a Field extraction of the ranged committedTxn
-			if fx, ok := lk.X.(*ssa.Field); !ok || fx.X.Type().Underlying().(*types.Struct).Field(fx.Field) != a.fCtFp {
-				return
+		for _, h := range p.Callees(call) {
+			if h.Pkg != f.Pkg || h == f {
+				continue
 			}
+			check(h, call, func(b ssa.Value) ssa.Value {
+				// the record is a parameter of the helper (or loaded through a pointer parameter)
+				if u, ok := b.(*ssa.UnOp); ok && u.Op == token.MUL {
+					b = u.X
+				}
+				if al, ok := b.(*ssa.Alloc); ok {
+					// a spilled value parameter: the only store into the cell is the parameter itself
+					var stored []ssa.Value
+					for _, ref := range *al.Referrers() {
+						if st, ok := ref.(*ssa.Store); ok && st.Addr == al {
+							stored = append(stored, st.Val)
+						}
+					}
+					if len(stored) == 1 {
+						b = stored[0]
+					}
+				}
+				pr, ok := b.(*ssa.Parameter)
+				if !ok {
+					return nil
+				}
+				for i, q := range h.Params {
+					if q == pr && i < len(call.Call.Args) && !call.Call.IsInvoke() {
+						return call.Call.Args[i]
+					}
+				}
+				return nil
+			})
 		}
-		n++
-		isCtTs := func(v ssa.Value) bool {
-			if isLoadOfField(v, a.fCtTs) {
-				return true
-			}
-			if fx, ok := v.(*ssa.Field); ok {
-				return fx.X.Type().Underlying().(*types.Struct).Field(fx.Field) == a.fCtTs
-			}
-			return false
-		}
-		g := hasFact(lk, func(cm Cmp) bool {
-			return cm.Op == ">" && cm.Y != nil && isCtTs(cm.X) && isLoadOfField(cm.Y, a.fReadTs)
-		})
-		r.Check(g, fn, "compare only with commits after the snapshot", p.Pos(instrPos(lk)), "fingerprints are compared only when ct.ts > txn.readTs",
-			"fingerprints are compared for a window other than ct.ts > txn.readTs: commits the transaction could see cause refusals, or commits it could not see are ignored")
 	})
 	if n == 0 {
 		r.Undecided(fn, "fingerprint lookup", p.Pos(f.Pos()), "no lookup in committedTxn.writesFp found")
@@ -1407,8 +1534,31 @@ func runTraceMisuse(c *Ctx, r *RuleRun) {
 		// branch edge that establishes "check passed" no return of that error is reachable, and from some edge that
 		// establishes "check failed" one is
 		isErrRet := func(ins ssa.Instruction) bool {
-			ret, ok := ins.(*ssa.Return)
-			return ok && ev != nil && globalLoaded(retOperand(ret, 0)) == ev
+			if ev == nil {
+				return false
+			}
+			if ret, ok := ins.(*ssa.Return); ok {
+				return globalLoaded(retOperand(ret, 0)) == ev
+			}
+			// single exit with a result variable: the jump that carries the error into the phi the function returns
+			if jp, ok := ins.(*ssa.Jump); ok {
+				b := jp.Block()
+				s := b.Succs[0]
+				ret, ok := s.Instrs[len(s.Instrs)-1].(*ssa.Return)
+				if !ok || len(ret.Results) == 0 {
+					return false
+				}
+				ph, ok := retOperand(ret, 0).(*ssa.Phi)
+				if !ok || ph.Block() != s {
+					return false
+				}
+				for i, pb := range s.Preds {
+					if pb == b && i < len(ph.Edges) && globalLoaded(ph.Edges[i]) == ev {
+						return true
+					}
+				}
+			}
+			return false
 		}
 		found, wrongSide := false, false
 		for _, f := range cands {
